@@ -8,7 +8,8 @@ straight afterwards) the simulators are rebuilt and a REDUCED workload is run; a
 survives it is run against the full registered quick checks; what survives those is listed for
 manual review (equivalent mutant, or a hole).  Nothing here is a registered check.
 
-  tools/mutsweep.py [reader|writer|treap|node]...     default: all four files
+  tools/mutsweep.py [--swap] [reader|writer|treap|node|lcg|numtraits|macro]...     default: the first four
+  --swap: instead of token-level edits, exchange adjacent statements (order-of-operations defects)
   results: selftest/mutsweep.json
 """
 import json, os, re, subprocess, sys, time
@@ -18,24 +19,43 @@ sys.path.insert(0, os.path.join(V, "lib"))
 import vcheck  # noqa: E402
 from vcheck import REPO, ENV, WORK, cargo_build, run  # noqa: E402
 
+# key: (file, reduced workload, registered checks a survivor is run against)
 FILES = {
-    "reader": ("rlib/io/src/reader.rs", "io", ["C08", "C09"]),
-    "writer": ("rlib/io/src/writer.rs", "io", ["C09"]),
+    "reader": ("rlib/io/src/reader.rs", "reader", ["C08", "C09"]),
+    "writer": ("rlib/io/src/writer.rs", "writer", ["C09"]),
     "treap": ("rlib/treap/src/treap.rs", "treap", ["C03", "C16"]),
     "node": ("rlib/treap/src/treap_node.rs", "treap", ["C03", "C16", "C17"]),
+    "lcg": ("rlib/rand/src/lcg.rs", "treap", ["C16", "C03"]),
+    "randlib": ("rlib/rand/src/lib.rs", "treap", ["C16", "C03"]),
+    "numtraits": ("rlib/num_traits/src/lib.rs", "writer", ["C09"]),
+    "macro": ("rlib/io/src/output_macro.rs", "writer", ["C09"]),
 }
+OPS = "token"  # or "swap": adjacent expression statements exchanged
 
 REL = [(" < ", " <= "), (" <= ", " < "), (" > ", " >= "), (" >= ", " > "), (" == ", " != "), (" != ", " == ")]
 ARITH = [(" + 1", " + 2"), (" + 1", ""), (" - 1", ""), (" - 1", " - 2"), (" + ", " - "), (" - ", " + "), (" += ", " -= "), (" * 10", " * 9"), (" / 10", " / 9"), (" % 10", " % 9")]
 BOOL = [(" && ", " || "), (" || ", " && "), ("!reader.eof", "reader.eof"), ("!self.eof", "self.eof"), (".is_some()", ".is_none()"), (".is_none()", ".is_some()"), ("true", "false"), ("false", "true")]
 CONST = [(r"\b0\b", "1"), (r"\b1\b", "0"), (r"\b1\b", "2"), (r"\b10\b", "11"), (r"\b16\b", "15"), (r"\b32\b", "31")]
-SWAP = [("left", "right"), ("right", "left"), ("begin", "end"), ("Some(", "None::<()>.map(|_| "), (".min(", ".max("), (".max(", ".min(")]
+SWAP = [("left", "right"), ("right", "left"), ("begin", "end"), ("Some(", "None::<()>.map(|_| "), (".min(", ".max("), (".max(", ".min("), ("wrapping_mul(", "wrapping_add("), (".wrapping_add(C)", ""), ("wrapping_mul(A)", "wrapping_mul(A | 2)"),
+        ("6364136223846793005", "6364136223846793004"), ("1442695040888963407", "1442695040888963408")]
 
 
 def mutants_of(path):
     text = open(os.path.join(REPO, path)).read().split("\n")
     out = []
     in_verif = 0
+    if OPS == "swap":
+        def stmt(l):
+            t = l.strip()
+            return t.endswith(";") and not t.startswith(("let ", "return", "//", "use ", "#[", "const ", "type ", "static ")) and "debug_assert" not in t and t.count("(") == t.count(")") and t.count("{") == t.count("}")
+        for i in range(len(text) - 1):
+            if 'cfg(' in text[i] or (i > 0 and 'cfg(' in text[i - 1]) or 'cfg(' in text[i + 1]:
+                continue
+            a, b = text[i], text[i + 1]
+            # also exchange a `let` with the statement after it when that compiles (the compiler decides)
+            if (stmt(a) or a.strip().startswith("let ")) and stmt(b) and a.strip() != b.strip() and len(a) - len(a.lstrip()) == len(b) - len(b.lstrip()):
+                out.append((i, a + " /// " + b.strip(), b + "\n" + a))
+        return text, out
     for i, line in enumerate(text):
         s = line.strip()
         if 'cfg(feature = "verif")' in s:
@@ -137,6 +157,10 @@ def reduced(kind):
 
 
 def main(argv):
+    global OPS
+    if argv and argv[0] == "--swap":
+        OPS = "swap"
+        argv = argv[1:]
     kinds = argv or ["reader", "writer", "treap", "node"]
     if subprocess.run(["git", "-C", REPO, "status", "--porcelain", "--untracked-files=no"], stdout=subprocess.PIPE, text=True).stdout.strip():
         print("/repo dirty")
@@ -144,25 +168,28 @@ def main(argv):
     results = []
     path_out = os.path.join(V, "selftest", "mutsweep.json")
     if os.path.exists(path_out):
-        results = [r for r in json.load(open(path_out)) if r["file_kind"] not in kinds]
+        results = [r for r in json.load(open(path_out)) if not (r["file_kind"] in kinds and r.get("ops", "token") == OPS)]
     saved = {p: open(os.path.join(vcheck.EVIDENCE, p + ".json")).read() for p in ("C03", "C08", "C09", "C16", "C17") if os.path.exists(os.path.join(vcheck.EVIDENCE, p + ".json"))}
     try:
         for kind in kinds:
             path, engine, props = FILES[kind]
             text, muts = mutants_of(path)
-            pkgs = [("iosim", "sim-rel"), ("iosim", "sim-dbg")] if engine == "io" else [("treapsim", "sim-dbg")]
+            pkgs = [("iosim", "sim-rel"), ("iosim", "sim-dbg")] if engine in ("reader", "writer") else [("treapsim", "sim-dbg")]
             print("%s: %d candidate mutants" % (path, len(muts)), flush=True)
             for n, (i, old, new) in enumerate(muts):
                 t0 = time.time()
                 lines = list(text)
-                lines[i] = new
+                if OPS == "swap":
+                    lines[i:i + 2] = new.split("\n")
+                else:
+                    lines[i] = new
                 open(os.path.join(REPO, path), "w").write("\n".join(lines))
-                row = {"file_kind": kind, "file": path, "line": i + 1, "from": old.strip(), "to": new.strip()}
+                row = {"file_kind": kind, "ops": OPS, "file": path, "line": i + 1, "from": old.strip(), "to": " ; ".join(x.strip() for x in new.split("\n"))}
                 try:
                     if not build(pkgs):
                         row["verdict"] = "does not compile"
                     else:
-                        k = killed_by(reduced(kind))
+                        k = killed_by(reduced(engine))
                         if k:
                             row["verdict"], row["by"] = "killed (reduced workload)", k
                         else:
